@@ -201,6 +201,9 @@ class DbSuite:
                         elif o == "W" and a != "ok":
                             bad = (i, "background work did not quiesce")
                             break
+                        elif o[0] == "M" and a != "ok":
+                            bad = (i, "positioning fresh iterators failed: %s" % a)
+                            break
                         continue
                     if a != b:
                         bad = (i, "op %d %s: implementation %s, specification %s" % (i, lib.trunc(o, 80), lib.trunc(a, 200), lib.trunc(b, 200)))
